@@ -32,9 +32,9 @@ type lockRig struct {
 	useDumb bool
 	dumb    z80.DumbMemory
 	prev    z80.CPU
-	afterEI    bool         // previous Step executed EI
-	parked     bool         // previous Step executed HALT (CPU is parked on it)
-	known      map[string]bool
+	afterEI bool // previous Step executed EI
+	parked  bool // previous Step executed HALT (CPU is parked on it)
+	known   map[string]bool
 	// strictEI: do not allow the one-instruction EI shadow (used by nothing yet)
 }
 
